@@ -109,7 +109,7 @@ def run(ctx):
     fams = {}
     for name in FAMS:
         fams[name] = dict(vmfam.FAMILIES[name])
-        if not ctx.quick:
+        if not ctx.quick and name not in ('bigmap', 'bigset', 'dipops'):      # the large-member families keep their depth (alphabets of 40-90 compound steps)
             fams[name]['depth'] += 1
     C01.run_families(ctx, 'C02', 'types', fams)
     # values that live at annotated types (as storage and parameter values do): the type of every slot, annotations stripped, is still the static one
